@@ -166,9 +166,11 @@ impl FractionsConfigHelper {
     /// Non set values will take [`FractionsConfig::default`].
     pub(crate) fn define(self) -> FractionsConfig {
         let d = FractionsConfig::default();
+        // `clamp` keeps a NaN, which would panic later in `Number::new_approx`
+        let accuracy = self.accuracy.filter(|a| !a.is_nan()).unwrap_or(d.accuracy);
         FractionsConfig {
             enabled: self.enabled.unwrap_or(d.enabled),
-            accuracy: self.accuracy.unwrap_or(d.accuracy).clamp(0.0, 1.0),
+            accuracy: accuracy.clamp(0.0, 1.0),
             max_denominator: self
                 .max_denominator
                 .unwrap_or(d.max_denominator)
